@@ -394,7 +394,8 @@ pub fn hostile_datagrams() -> Vec<(String, Vec<u8>)> {
     }
     out.push(("400-instances-response".into(), many.encode_compressed(0, false)));
     // many questions in one datagram: the reply grows with the number of questions
-    for (n, qname, qtype) in [(50usize, "me._mysrv._tcp.local", 255u16), (200, "me._mysrv._tcp.local", 255), (600, "me._mysrv._tcp.local", 33), (200, SERVICE, 255), (400, "peer._mysrv._tcp.local", 255)] {
+    for (n, qname, qtype) in [(50usize, "me._mysrv._tcp.local", 255u16), (200, "me._mysrv._tcp.local", 255), (600, "me._mysrv._tcp.local", 33), (200, SERVICE, 255), (400, "peer._mysrv._tcp.local", 255), (1400, SERVICE, 12), (1450, "me._mysrv._tcp.local", 255), (1490, SERVICE, 255)] {
+        // (with 1400 and more questions the reply exceeds what one UDP datagram can carry: sending it fails)
         let mut q = RefPacket { id: 0, ..Default::default() };
         for i in 0..n {
             q.questions.push(RefQ { name: RefName::txt(qname), qtype, qclass: if i % 2 == 0 { 1 } else { 255 }, unicast: i % 3 == 0 });
@@ -1046,6 +1047,95 @@ pub fn socket_stage_resolvers(ctx: &Ctx, reps: &[(String, Vec<u8>)], max_reps: u
             }
         }
     }
+    // the raw entry point: query_packet with and without the unicast-response flag; a hostile
+    // datagram arrives first, then a genuine answer; the call returns (bytes, nothing or an
+    // error) within its timeout
+    let run_packet = |asynchronous: bool, unicast: bool, hostile: Option<Vec<u8>>| -> Result<Option<Duration>, String> {
+        let (txr, rxr) = std::sync::mpsc::channel();
+        let h = std::thread::spawn(move || {
+            guarded(|| -> Result<(), String> {
+                let mut q = Packet::new_query(0x51);
+                q.questions.push(simple_dns::Question::new(Name::new_unchecked("res._verif._udp.local"), simple_dns::QTYPE::TYPE(simple_dns::TYPE::A), simple_dns::QCLASS::CLASS(CLASS::IN), unicast));
+                if asynchronous {
+                    let rt = tokio::runtime::Builder::new_current_thread().enable_all().build().map_err(|e| format!("{}", e))?;
+                    rt.block_on(async {
+                        let mut r = simple_mdns::async_discovery::OneShotMdnsResolver::new().map_err(|e| format!("{:?}", e))?;
+                        r.set_query_timeout(Duration::from_millis(200));
+                        r.set_unicast_response(unicast);
+                        let _ = txr.send(());
+                        if let Ok(Some(bytes)) = r.query_packet(q).await {
+                            let _ = Packet::parse(&bytes);
+                        }
+                        Ok(())
+                    })
+                } else {
+                    let mut r = simple_mdns::sync_discovery::OneShotMdnsResolver::new().map_err(|e| format!("{:?}", e))?;
+                    r.set_query_timeout(Duration::from_millis(200));
+                    r.set_unicast_response(unicast);
+                    let _ = txr.send(());
+                    if let Ok(Some(bytes)) = r.query_packet(q) {
+                        let _ = Packet::parse(&bytes);
+                    }
+                    Ok(())
+                }
+            })
+        });
+        let t0 = Instant::now();
+        let _ = rxr.recv_timeout(Duration::from_secs(2));
+        std::thread::sleep(Duration::from_millis(40));
+        if let Some(d) = &hostile {
+            let _ = net.send(d);
+            std::thread::sleep(Duration::from_millis(15));
+        }
+        let _ = net.send(&genuine);
+        let deadline = Instant::now() + Duration::from_secs(4);
+        while !h.is_finished() && Instant::now() < deadline {
+            std::thread::sleep(Duration::from_millis(5));
+        }
+        if !h.is_finished() {
+            return Ok(None);
+        }
+        match h.join() {
+            Ok(Ok(_)) => Ok(Some(t0.elapsed())),
+            Ok(Err(pn)) => Err(format!("panic: {} at {}", pn.message, pn.location)),
+            Err(_) => Err("resolver thread died".to_string()),
+        }
+    };
+    {
+        let hostile_picks: Vec<Option<Vec<u8>>> = {
+            let mut v: Vec<Option<Vec<u8>>> = vec![None, Some(vec![]), Some(vec![0x80; 12])];
+            let stepq = (reps.len() / 2).max(1);
+            v.extend(reps.iter().step_by(stepq).filter(|(_, d)| d.len() <= 9000).map(|(_, d)| Some(d.clone())));
+            v
+        };
+        for asynchronous in [false, true] {
+            let which = if asynchronous { "tokio" } else { "sync" };
+            for unicast in [false, true] {
+                for (hi, hz) in hostile_picks.iter().enumerate() {
+                    // with the unicast-response flag nothing ever answers here: the call runs into its timeout, two cases are enough
+                    if unicast && hi >= 2 {
+                        continue;
+                    }
+                    let case = json!({"kind": "socket", "class": format!("query_packet-unicast-{}", unicast), "datagram": hz.as_ref().map(|d| hex(d)).unwrap_or_default()});
+                    n += 1;
+                    t.evals += 1;
+                    t.transitions += 2;
+                    t.nontrivial += 1;
+                    match run_packet(asynchronous, unicast, hz.clone()) {
+                        Err(e) => {
+                            ctx.violation(finding(format!("C14|socket-resolver|{}|panic", which), format!("{} query_packet (unicast response {}): {}", which, unicast, e), case));
+                            t.outcome("resolver-panic");
+                        }
+                        Ok(None) => {
+                            ctx.violation(finding(format!("C14|socket-resolver|{}|does-not-return", which), format!("{} query_packet (unicast response {}) with a 200 ms timeout has not returned after 4 s", which, unicast), case));
+                            t.outcome("resolver-stuck");
+                        }
+                        Ok(Some(_)) => t.outcome("resolver-returned"),
+                    }
+                }
+            }
+        }
+    }
     let step = (reps.len() / max_reps.max(1)).max(1);
     for (i, (class, d)) in reps.iter().enumerate() {
         if i % step != 0 || d.len() > 9000 {
@@ -1072,7 +1162,7 @@ pub fn socket_stage_resolvers(ctx: &Ctx, reps: &[(String, Vec<u8>)], max_reps: u
         }
     }
     ctx.merge(t);
-    ctx.space("socket-level replay (one-shot resolvers, sync and tokio): a query in flight receives a representative datagram and then a genuine answer; the call must return within its timeout and not panic", n, "complete for the representative subset");
+    ctx.space("socket-level replay (one-shot resolvers, sync and tokio): a query in flight (query_service_address, query_service_address_and_port with 6 reply shapes, query_packet with and without the unicast-response flag) receives a representative datagram and then a genuine answer; the call must return within its timeout and not panic", n, "complete for the representative subset");
     ctx.set_extra("socket_stage_resolvers", json!({"ran": true, "queries": n}));
 }
 
